@@ -257,8 +257,8 @@ func (c *Scheme[E]) Reconstruct(shares ...*Share[E]) (*Secret[E], error) {
 // ConvertShareToAdditive converts this Shamir share to an additive share by multiplying
 // by the appropriate Lagrange coefficient. The resulting additive shares can
 // be summed to reconstruct the secret.
-func (*Scheme[E]) ConvertShareToAdditive(s *Share[E], quorum *unanimity.Unanimity) (*additive.Share[E], error) {
-	return s.ToAdditive(quorum)
+func (c *Scheme[E]) ConvertShareToAdditive(s *Share[E], quorum *unanimity.Unanimity) (*additive.Share[E], error) {
+	return s.toAdditive(c.g, quorum)
 }
 
 // sampler provides functions to sample secrets and shares for ISN schemes. It abstracts the randomness source and allows for flexible sampling strategies.
